@@ -57,8 +57,8 @@ def replay(name, inp):
     if inp.get('twice'):
         out = native.call('twice', {}, timeout=60)
         return {'reproduced': bool(out.get('failures')), 'observed': out.get('failures', [])[:2]}
-    if inp.get('master_error') or inp.get('nested'):
-        mode = 'master_error' if inp.get('master_error') else 'nested'
+    if inp.get('master_error') or inp.get('nested') or inp.get('scheduler_graphs'):
+        mode = 'master_error' if inp.get('master_error') else ('nested' if inp.get('nested') else 'scheduler_graphs')
         out = native.call(mode, {}, timeout=60)
         return {'reproduced': bool(out.get('failures')), 'observed': out.get('failures', [])[:2]}
     if 'cycle_of' in inp:
